@@ -88,6 +88,11 @@ def write_masked_input(path_out):
 def run(task):
     global DATA_DIR
     DATA_DIR = task.get("data_dir")
+    if task.get("api"):
+        with warnings.catch_warnings():
+            warnings.simplefilter("ignore")
+            with np.errstate(all="ignore"):
+                return run_api(task)
     rnd = random.Random(task["seed"])
     idx = task["index"]
     which = ("assemble", "call", "call-pedigree")[idx % 3]
@@ -221,7 +226,108 @@ def run(task):
     return events
 
 
-def event(program, rec, sample, kind, P, K, tr, burn, theta, lab, hapnum, gtnum, nrec, fields, cmd):
+# ---- API-level traces from the real samplers, started from permuted (unsorted) initial vectors ----------
+def milli_f(v):
+    return int(round(float(v) * 1000))
+
+
+def run_api(task):
+    """CallingMCMC / PedigreeCallingMCMC fits on random reads with an UNSORTED initial genotype; the summaries
+    returned by the API (not printed text) are recorded, in 1/1000, for TraceTraceSummary."""
+    from mchap.calling.classes import CallingMCMC
+    from mchap.pedigree.classes import PedigreeCallingMCMC
+
+    rnd = random.Random(task["seed"])
+    nrnd = np.random.RandomState(task["seed"] % (2 ** 31))
+    events = []
+    for rep in range(task.get("n", 6)):
+        n_pos = rnd.choice([2, 3])
+        K = rnd.choice([2, 3, 4, 5])
+        haps = set()
+        haps.add(tuple([0] * n_pos))
+        while len(haps) < K:
+            haps.add(tuple(rnd.randrange(2) for _ in range(n_pos)))
+            if len(haps) < K and len(haps) >= 2 ** n_pos:
+                break
+        haplotypes = np.array(sorted(haps), dtype=np.int8)
+        K = len(haplotypes)
+        chains = rnd.choice([1, 2, 3])
+        steps, burn = rnd.choice([(24, 8), (20, 4), (40, 8), (12, 4)])
+        theta = rnd.choice(THETAS)
+        th = theta_fraction(theta)
+        pedigree = rnd.random() < 0.4
+        ploidies = [rnd.choice([2, 4]) for _ in range(3)] if pedigree else [rnd.choice([2, 3, 4, 6])]
+
+        def reads_for(P):
+            truth = [rnd.randrange(K) for _ in range(P)]
+            n_reads = rnd.choice([0, 3, 8])
+            r = np.full((n_reads, n_pos, 2), 0.5)
+            for i in range(n_reads):
+                h = haplotypes[truth[i % P]]
+                for j in range(n_pos):
+                    if rnd.random() < 0.8:
+                        r[i, j] = [0.1, 0.1]
+                        r[i, j, h[j]] = 0.9
+            return r, np.ones(n_reads, dtype=np.int64)
+
+        if not pedigree:
+            P = ploidies[0]
+            reads, counts = reads_for(P)
+            initial = np.array([rnd.randrange(K) for _ in range(P)], dtype=np.int8)   # deliberately unsorted
+            model = CallingMCMC(ploidy=P, haplotypes=haplotypes, inbreeding=rnd.choice([0.0, 0.25]), steps=steps,
+                                chains=chains, random_seed=rnd.randrange(1, 10 ** 6),
+                                step_type=rnd.choice(["Gibbs", "Metropolis-Hastings"]))
+            trace = model.fit(reads, counts, initial=initial)
+            traces = [(trace, P)]
+            progname = "api:CallingMCMC"
+        else:
+            N = 3
+            maxp = max(ploidies)
+            sample_reads, sample_counts = [], []
+            for P in ploidies:
+                r, c = reads_for(P)
+                sample_reads.append(r)
+                sample_counts.append(c)
+            mr = max(len(r) for r in sample_reads)
+            R = np.full((N, mr, n_pos, 2), np.nan)
+            Cn = np.zeros((N, mr), dtype=np.int64)
+            for i in range(N):
+                R[i, : len(sample_reads[i])] = sample_reads[i]
+                Cn[i, : len(sample_counts[i])] = sample_counts[i]
+            initial = np.full((N, maxp), -1, dtype=np.int16)
+            for i, P in enumerate(ploidies):
+                initial[i, :P] = [rnd.randrange(K) for _ in range(P)]                     # unsorted
+            parents = np.array([[-1, -1], [-1, -1], [0, 1]])
+            tau = np.array([[p // 2, p - p // 2] for p in ploidies])
+            model = PedigreeCallingMCMC(
+                sample_ploidy=np.array(ploidies), sample_inbreeding=np.zeros(N), sample_parents=parents,
+                gamete_tau=tau, gamete_lambda=np.zeros((N, 2)), gamete_error=np.full((N, 2), 0.1),
+                haplotypes=haplotypes, steps=steps, annealing=burn, chains=chains,
+                random_seed=rnd.randrange(1, 10 ** 6))
+            ptrace = model.fit(R, Cn, initial=initial)
+            traces = [(ptrace.individual(i), ploidies[i]) for i in range(N)]
+            progname = "api:PedigreeCallingMCMC"
+        for si, (trace, P) in enumerate(traces):
+            g = np.array(trace.genotypes)
+            tb = trace.burn(burn)
+            post = tb.posterior()
+            gt, gpm, spm = post.mode(genotype_support=True)
+            fr, ct, oc = tb.posterior_frequencies()
+            gp = post.as_array(K)
+            mci = tb.replicate_incongruence(float(th))
+            tr = [[[int(x) for x in g[c, s]] for s in range(g.shape[1])] for c in range(g.shape[0])]
+            fields = None
+            rec = {"id": "rep%d" % rep}
+            ev = event(progname, rec, "S%d" % si, "allele", P, K, tr, burn, theta, list(range(K)), list(range(K)),
+                       list(range(K)), K, None, ["api"], out={
+                           "gt": [int(x) for x in gt], "gpm": milli_f(gpm), "spm": milli_f(spm), "mci": int(mci),
+                           "afp": [milli_f(x) for x in fr], "acp": [milli_f(x) for x in ct],
+                           "aop": [milli_f(x) for x in oc], "gp": [milli_f(x) for x in gp]})
+            events.append(ev)
+    return events
+
+
+def event(program, rec, sample, kind, P, K, tr, burn, theta, lab, hapnum, gtnum, nrec, fields, cmd, out=None):
     th = theta_fraction(theta)
     C, S = len(tr), len(tr[0])
     ret = set()
@@ -232,6 +338,6 @@ def event(program, rec, sample, kind, P, K, tr, burn, theta, lab, hapnum, gtnum,
         "program": program, "locus": rec["id"], "sample": sample, "kind": kind,
         "p": int(P), "k": int(K), "c": C, "s": S, "burn": int(burn), "theta": [th.numerator, th.denominator],
         "tr": tr, "lab": lab, "hapnum": hapnum, "gtnum": gtnum, "nrec": int(nrec),
-        "out": sample_out(fields), "distinct": len(ret),
+        "out": out if out is not None else sample_out(fields), "distinct": len(ret),
         "argv": " ".join(os.path.basename(a) if "/" in a else a for a in cmd[1:]),
     }
